@@ -586,6 +586,17 @@ def _integer_method(interp, v, attr, args, kwargs, st, node):
         if attr == "get_bit":
             return (v >> int(args[0])) & 1
         if attr == "to_bytes":
+            n = args[0] if args else kwargs.get("block_size", kwargs.get("length", 0))
+            order = args[1] if len(args) > 1 else kwargs.get("byteorder", "big")
+            if isinstance(n, int) and order in ("big", "little") and v >= 0:
+                need = max(1, (v.bit_length() + 7) // 8)
+                if n == 0:
+                    n = need
+                if n >= need:
+                    return v.to_bytes(n, order)
+                interp._diverged = interp.do_raise(
+                    "OverflowError" if len(args) > 1 or "length" in kwargs else "ValueError", st, node)
+                return UNK
             return NotImplemented
     except Exception:
         return UNK
